@@ -1766,6 +1766,8 @@ def eager_cat(name, parts, part_name):
         # The new name is also a free input of a part: concatenate first,
         # then rename, which takes the diagonal.
         result = eager_cat_homogeneous(part_name, part_name, *parts)
+        if result is None:
+            return None  # defer to default implementation
         return result(**{part_name: name})
     return eager_cat_homogeneous(name, part_name, *parts)
 
